@@ -220,6 +220,42 @@ def _impl(tier, seed, search):
                             if G[i].shape != W[i].shape or not np.allclose(G[i], W[i], rtol=1e-12, atol=1e-12, equal_nan=True):
                                 L.fail(f'per-value-element:{c}.{mn}', f'{c}.{mn} on {m} values{(" after an in-place edit (" + phase + ")") if phase else ""}: result {i} differs from the method applied to element {i}', dict(inp, method=mn, after=phase), observed=repr(G[i])[:100], required=repr(W[i])[:100])
                                 break
+    # special values inside a sequence: attitudes at and next to pitch = +-90 deg, poses exactly half a turn from the start of an interpolation,
+    # quaternions stored in narrow dtypes — element i of the multi-valued result is still the single-valued result
+    from spatialmath import UnitQuaternion as _UQ, Quaternion as _Q, SO3 as _SO3, SE3 as _SE3
+    from spatialmath import base as _b
+    def per_value_(tag, X_, f_, tol=1e-9):
+        L.count('per-value(special)', key=tag)
+        try: singles_ = [f_(x_) for x_ in X_]
+        except Exception: return
+        try: multi_ = f_(X_)
+        except Exception as e:
+            L.fail(f'per-value-raises:{tag}', f'{tag} on a sequence raised {type(e).__name__}', dict(case=tag)); return
+        rows_ = [np.asarray(a_.A if hasattr(a_, 'A') and not isinstance(a_, np.ndarray) else a_, float) for a_ in (multi_.data if hasattr(multi_, 'data') else multi_)] if not isinstance(multi_, np.ndarray) else [np.asarray(multi_[k_], float) for k_ in range(len(X_))]
+        if len(rows_) != len(X_): L.fail(f'per-value-count:{tag}', f'{tag} on {len(X_)} values returns {len(rows_)} results', dict(case=tag)); return
+        for k_, (got_, one_) in enumerate(zip(rows_, singles_)):
+            one_ = np.asarray(one_.A if hasattr(one_, 'A') and not isinstance(one_, np.ndarray) else one_, float)
+            got_, one_ = np.ravel(got_), np.ravel(one_)
+            if got_.shape != one_.shape or not np.allclose(got_, one_, rtol=tol, atol=tol):
+                L.fail(f'per-value-element:{tag}', f'{tag}: result {k_} on a sequence differs from the method applied to element {k_}', dict(case=tag, k=k_), observed=got_.tolist(), required=one_.tolist()); return
+    for rep_ in range(2 if tier == 'quick' else 12):
+        qs_ = [_UQ.RPY([float(g.uniform(-1, 1)), p_, float(g.uniform(-1, 1))]) for p_ in (math.pi / 2, -math.pi / 2, math.pi / 2 - 10.0 ** g.uniform(-9, -7.5), 0.3, -math.pi / 2 + 10.0 ** g.uniform(-9, -7.5))]
+        Xq_ = _UQ([q_.vec for q_ in qs_])
+        for o_ in ('zyx', 'xyz', 'yxz'):
+            per_value_(f'UnitQuaternion.rpy({o_})(singular values)', Xq_, lambda Z_: _b.rpy2r(Z_.rpy(order=o_), order=o_) if len(Z_) == 1 else np.array([_b.rpy2r(r_, order=o_) for r_ in Z_.rpy(order=o_)]), 1e-6)
+            per_value_(f'SO3.rpy({o_})(singular values)', _SO3([q_.R for q_ in qs_]), lambda Z_: _b.rpy2r(Z_.rpy(order=o_), order=o_) if len(Z_) == 1 else np.array([_b.rpy2r(r_, order=o_) for r_ in (lambda A_: A_.T if A_.shape == (3, len(Z_)) else A_)(np.asarray(Z_.rpy(order=o_)))]), 1e-6)
+        per_value_('UnitQuaternion.rpy(values, near singular)', _UQ([q_.vec for q_ in qs_[2:]]), lambda Z_: Z_.rpy() if len(Z_) == 1 else np.asarray(Z_.rpy()), 1e-9)
+        S0_ = _SE3(inputs.se3(g, 1), check=False)
+        Xh_ = _SE3([(S0_ * _SE3.Rx(math.pi)).A, (S0_ * _SE3(1, 2, 3) * _SE3.AngVec(math.pi, [1, 2, 2])).A, (S0_ * _SE3.Rz(0.3)).A], check=False)
+        for s_ in (0.3, 0.75):
+            per_value_(f'SE3.interp(s={s_}, start)(half turn from the start)', Xh_, lambda Z_: Z_.interp(s_, start=S0_), 1e-9)
+            per_value_(f'SO3.interp(s={s_}, start)(half turn from the start)', _SO3([x_.R for x_ in Xh_]), lambda Z_: Z_.interp(s_, start=_SO3(S0_.R)), 1e-9)
+        for dt_, vals_ in ((np.int16, [[12000, -9000, 7000, 3000], [16384, 0, 0, 0], [-20000, 15000, 1000, 2]]), (np.int32, [[2 ** 30, -2 ** 29, 12345, 7], [100000, 200000, -300000, 400000]]), (np.float32, [[0.1, 0.2, 0.3, 0.4], [1e-3, 5.0, -2.0, 7.5]]),
+                           (np.int64, [[3 * 10 ** 9, 1, 2, 3], [1, 2, 3, 4]])):
+            arrs_ = [np.array(v_, dtype=dt_) for v_ in vals_]
+            try: Xn_ = _Q(arrs_)
+            except Exception: continue
+            per_value_(f'Quaternion.norm({dt_.__name__})', Xn_, lambda Z_: np.asarray(Z_.norm(), float).reshape(-1) if len(Z_) > 1 else np.asarray([float(Z_.norm())]), 1e-12)
     # one twist with several angles (1 x M): motion k is exp(theta_k S), for prismatic, revolute, screw and general twists, in both units
     from spatialmath import Twist3 as _T3, Twist2 as _T2
     for rep_ in range(3 if tier == 'quick' else 30):
